@@ -15,7 +15,8 @@ from harness import k_validate as kv  # noqa: E402
 # latest stage at which each class must have been rejected ('def' = at definition)
 DEADLINE = dict(h0_offdiag="def", shared1=1, shared2=2, mask_equal="def", biorth="def", mask_asym="def",
                 solver_fd="def", vecs_and_indices="def", herm_pairs="def", legacy_nonherm="def",
-                fd_array_blocks="def", solver_single="def", unsupported_type="def")
+                fd_array_blocks="def", solver_single="def", unsupported_type="def",
+                cross_overlap="def", cross_overlap_lr="def")
 
 
 def stage_rank(s):
